@@ -28,6 +28,27 @@ type env struct {
 
 func xmlText(s string) string { return esc(s) }
 
+// faultRW is the library's transport with a read that fails for good once
+// failAt bytes have been delivered.
+type faultRW struct {
+	*bufconn.Conn
+	failAt    int
+	delivered int
+	err       error
+}
+
+func (f *faultRW) Read(p []byte) (int, error) {
+	if f.delivered >= f.failAt {
+		return 0, f.err
+	}
+	if rest := f.failAt - f.delivered; len(p) > rest {
+		p = p[:rest]
+	}
+	n, err := f.Conn.Read(p)
+	f.delivered += n
+	return n, err
+}
+
 // updatingNegotiator is sess.NopNegotiator plus a call of Session.UpdateAddr
 // before the Ready bit is reported (what resource binding does).
 func updatingNegotiator(o sess.Opts, to jid.JID, okp *bool) xmpp.Negotiator {
@@ -60,6 +81,29 @@ func updatingNegotiator(o sess.Opts, to jid.JID, okp *bool) xmpp.Negotiator {
 // what the peer sends after negotiation.
 func newEnv(c *core.Case, sc Scenario, input string) (*env, bool) {
 	o := sess.Opts{S2S: sc.S2S, Received: sc.Received, Local: sc.Local}
+	if sc.ReadFault != nil && sc.Addr == "" {
+		// a transport whose Read fails once the header and At bytes of the input
+		// have been delivered
+		probe, err := sess.NewPair(o) // only to learn the defaults
+		if err != nil {
+			c.Count("setup_failed", 1)
+			return nil, false
+		}
+		o = probe.Opts
+		probe.Peer.Close()
+		probe.Lib.Close()
+		lib, peer := bufconn.Pipe()
+		hdr := sess.Header(o)
+		peer.Write([]byte(hdr + input))
+		peer.CloseWrite()
+		frw := &faultRW{Conn: lib, failAt: len(hdr) + sc.ReadFault.At, err: readFaultErr(sc.ReadFault.Shape)}
+		s, err := sess.Ready(frw, o)
+		if err != nil {
+			c.Inconclusive("read-fault: session setup failed: %v", err)
+			return nil, false
+		}
+		return &env{S: s, Lib: lib, Opts: o, done: func() { peer.Close(); lib.Close() }}, true
+	}
 	switch sc.Addr {
 	case "", "update-ready":
 		p, err := sess.NewPair(o)
